@@ -9,3 +9,4 @@ INVARIANT EachOnce
 INVARIANT OrdConsistent
 PROPERTY SpentNeverFires
 PROPERTY SpecIsLegal
+PROPERTY NextDatagramProcessed
